@@ -7,13 +7,49 @@ use gv::surf::{self, Gen};
 use gv::{Args, Out};
 use std::time::Duration;
 
+/// Make a panic message usable as a stable fingerprint: addresses, numbers and generated
+/// variable names are replaced.
+fn normalize(msg: &str) -> String {
+    let mut out = String::new();
+    let cs: Vec<char> = msg.chars().collect();
+    let mut i = 0;
+    while i < cs.len() {
+        if cs[i] == '0' && i + 1 < cs.len() && cs[i + 1] == 'x' {
+            i += 2;
+            while i < cs.len() && cs[i].is_ascii_hexdigit() {
+                i += 1;
+            }
+            out.push_str("ADDR");
+        } else if cs[i].is_ascii_digit() {
+            while i < cs.len() && cs[i].is_ascii_digit() {
+                i += 1;
+            }
+            out.push('#');
+        } else {
+            out.push(cs[i]);
+            i += 1;
+        }
+    }
+    out.chars().take(90).collect()
+}
+
 fn child() {
     let vm = gv::vm::new_vm();
     gv::vm::settings(&vm, false, false);
     let mut i = 0;
+    gv::capture_panics();
     gv::child::serve(|src| {
         i += 1;
-        surf::run_canon(&vm, &format!("p{}", i), src)
+        let r = surf::run_canon(&vm, &format!("p{}", i), src);
+        if r.starts_with("panic ") {
+            // identify a panic by its site, not by its message
+            match gv::last_panic_location() {
+                Some(loc) => format!("panic @{}", loc),
+                None => r,
+            }
+        } else {
+            r
+        }
     });
 }
 
@@ -70,7 +106,11 @@ fn main() {
                 format!("abort:{}", res.trim_start_matches("abort "))
             } else if class == "panic" {
                 // the panic message identifies the failing site
-                format!("panic:{}", res.trim_start_matches("panic ").trim_matches('"'))
+                if res.starts_with("panic @") {
+                    format!("panic:{}", res.trim_start_matches("panic "))
+                } else {
+                    format!("panic:{}", normalize(res.trim_start_matches("panic ").trim_matches('"')))
+                }
             } else {
                 res.chars().take(70).collect::<String>()
             };
